@@ -454,15 +454,18 @@ func (e *Exec) makeSlice(elem types.Type, ln, cp *Term, in ssa.Instruction) Valu
 	tt := e.tt
 	e.check(tt.And(tt.Cmp(OSle, tt.Const(64, 0), ln), tt.Cmp(OSle, ln, cp)), in, "makeslice: len out of range")
 	n := maxMake
+	cp = e.subst(cp)
+	ln = e.subst(ln)
 	if cp.IsConst() {
 		if cp.val > 1<<20 {
-			panic(mkEnd("bound", "make too large"))
+			panic(mkEnd("allocbound", "allocation larger than 1 MiB elements at " + e.pos2(in)))
 		}
 		n = int(cp.val)
 	} else {
-		// bounded allocation: assume cap <= bound taken from the harness
+		// Bounded allocation: sizes beyond the bound are outside the claim (allocation size is
+		// environment dependent); the path is cut like an assumption and counted separately.
 		if !e.branch(tt.Cmp(OUle, cp, tt.Const(64, uint64(e.allocBound())))) {
-			panic(mkEnd("bound", "symbolic make exceeds allocation bound at " + e.pos2(in)))
+			panic(mkEnd("allocbound", "symbolic allocation exceeds the allocation bound at " + e.pos2(in)))
 		}
 		n = e.allocBound()
 	}
@@ -474,7 +477,7 @@ func (e *Exec) makeSlice(elem types.Type, ln, cp *Term, in ssa.Instruction) Valu
 	return SliceV{arr: Ptr{obj: o}, off: tt.Const(64, 0), ln: ln, cp: cp}
 }
 
-func (e *Exec) allocBound() int { return 64 }
+func (e *Exec) allocBound() int { return int(e.param("ALLOC", 64)) }
 
 // sliceElems returns the concrete element pointers of a slice after concretizing off/len.
 func (e *Exec) sliceConcrete(s SliceV, what string) (base int, n int) {
